@@ -159,7 +159,11 @@ var<workgroup> g: Grid;
 			case tr.err != nil:
 				report("backend-error", oneLine(tr.err.Error()))
 				continue
-			case tr.parse != nil || len(tr.static) > 0 || (tr.runErr != nil && isUnsupported(tr.runErr)):
+			case len(tr.static) > 0 && tr.parse == nil:
+				// the templates use no adversarial names: a static monitor firing is a defect of the emitted text
+				report("static:"+string(tr.static[0].Kind), oneLineN(tr.static[0].Error(), 300))
+				continue
+			case tr.parse != nil || (tr.runErr != nil && isUnsupported(tr.runErr)):
 				cov["template-unsupported:"+lane]++
 				continue
 			case tr.runErr != nil:
